@@ -173,3 +173,22 @@ pub proof fn lemma_sgn_mul(s: Sign, x: int)
 {
     if s == Sign::Negative { assert((-1) * x == -x); } else { assert(1 * x == x); }
 }
+
+/// an element with an inverse is coprime to the modulus (the "exactly when gcd(a, m) = 1" direction that needs no gcd)
+pub proof fn lemma_inv_coprime(r: int, z: int, m: int)
+    requires m > 1, (r * z) % m == 1,
+    ensures coprime(r, m),
+{
+    assert forall|d: int| d >= 1 && #[trigger] divides(d, r) && divides(d, m) implies d == 1 by {
+        lemma_exact_div(r, d);
+        lemma_exact_div(m, d);
+        vstd::arithmetic::div_mod::lemma_fundamental_div_mod(r * z, m);
+        let q = (r * z) / m;
+        let r1 = r / d;
+        let m1 = m / d;
+        let t = r1 * z - m1 * q;
+        assert(d * t == 1) by (nonlinear_arith)
+            requires r * z == m * q + 1, r == r1 * d, m == m1 * d, t == r1 * z - m1 * q;
+        assert(d == 1) by (nonlinear_arith) requires d * t == 1, d >= 1;
+    }
+}
